@@ -7,6 +7,7 @@ import (
 	"runtime"
 	"strconv"
 	"strings"
+	"sync"
 	"sync/atomic"
 	"time"
 
@@ -71,6 +72,8 @@ type actorRunner struct {
 	terminated  atomic.Bool
 	termAsked   atomic.Bool
 	termAt      atomic.Int64 // wall clock (ns) at which the actor handled its own OnTerminated
+	lifeMu      sync.Mutex
+	life        [][]string // per incarnation (instance obtained from the provider): lifecycle/user messages handled, in order
 	termEarly   atomic.Bool
 	idleDue     atomic.Bool  // some turn began >= idle-tick after the previous one ended
 	lastTurn    atomic.Int64 // unix nanos of the end of the last turn (handler or callback)
@@ -171,6 +174,46 @@ func (r *actorRunner) receive(ctx vivid.ActorContext) {
 	}
 }
 
+// note records, per instance handed out by the provider, what the instance handles (suite
+// lifecycle-timers: judged by the lifecycle automaton of property C03).
+func (r *actorRunner) note(inc int, ctx vivid.ActorContext) {
+	k := "other"
+	switch m := ctx.Message().(type) {
+	case *vivid.OnLaunch:
+		k = "launch"
+	case *vivid.OnRestarted:
+		k = "restarted"
+	case *vivid.OnRestarting:
+		k = "restarting"
+	case *vivid.OnTerminate:
+		k = "terminate"
+	case *vivid.OnTerminated:
+		if m.TerminatedActor.GetLogicalAddress() == ctx.Ref().GetLogicalAddress() {
+			k = "terminated"
+		} else {
+			k = "terminated-other"
+		}
+	case *cmd:
+		k = "user"
+	}
+	r.lifeMu.Lock()
+	for len(r.life) <= inc {
+		r.life = append(r.life, nil)
+	}
+	r.life[inc] = append(r.life[inc], k)
+	r.lifeMu.Unlock()
+}
+
+func (r *actorRunner) lifecycle() string {
+	r.lifeMu.Lock()
+	defer r.lifeMu.Unlock()
+	var parts []string
+	for i, l := range r.life {
+		parts = append(parts, fmt.Sprintf("%d:[%s]", i, strings.Join(l, " ")))
+	}
+	return strings.Join(parts, " ")
+}
+
 // OnTerminate is also delivered to the old instance during a restart (tryRestarted); that is asked for.
 func (r *actorRunner) incarnationStable() bool { return r.restarting.Load() == 0 }
 
@@ -239,8 +282,11 @@ func (r *actorRunner) spawn(idle, exp int) string {
 	r.created = wallNow()
 	r.lastTurn.Store(r.created.UnixNano())
 	r.ref = r.sys.ActorOfF(func() vivid.Actor {
-		r.incarnation.Add(1)
-		return vivid.FunctionalActor(r.receive)
+		inc := int(r.incarnation.Add(1))
+		return vivid.FunctionalActor(func(ctx vivid.ActorContext) {
+			r.note(inc, ctx)
+			r.receive(ctx)
+		})
 	}, func(d *vivid.ActorDescriptor) {
 		d.WithName("timers")
 		if idle > 0 {
@@ -574,6 +620,13 @@ func (r *actorRunner) Step(t []string) string {
 			}
 			return s
 		})
+	case "lifecycle":
+		if len(t) != 1 {
+			return "bad-op"
+		}
+		r.settle()
+		time.Sleep(20 * time.Millisecond)
+		return r.lifecycle()
 	case "alive":
 		if len(t) != 1 {
 			return "bad-op"
@@ -870,8 +923,64 @@ func actorGen(rng *proto.RNG, tier string, shard, nshards int, w *bufio.Writer) 
 	}
 }
 
+// lifeGen (suite lifecycle-timers, part of property C03's check): expiry and idle deadline combined with
+// crashes whose restart takes longer than the remaining lifetime, with asked terminations and with
+// timers; every case ends with `lifecycle`, the only line that is judged (by the lifecycle automaton).
+func lifeGen(rng *proto.RNG, tier string, shard, nshards int, w *bufio.Writer) {
+	rng = proto.NewRNG(rng.Next())
+	no := 0
+	emit := func(tag string, ops []string) {
+		if no%nshards == shard {
+			emitCase(w, no, tag, ops)
+		}
+		no++
+	}
+	ds := []int{0, 120, 260}
+	for _, exp := range []int{0, 120, 200} {
+		for _, idle := range []int{0, 150} {
+			for _, pre := range []int{0, 60} {
+				for _, d := range ds {
+					ops := []string{fmt.Sprintf("spawn %d %d", idle, exp), "after 0 30", fmt.Sprintf("wait %d", pre), "ping",
+						fmt.Sprintf("crash %d", d), "ping", "wait 100", fmt.Sprintf("crash %d", d/2), fmt.Sprintf("wait %d", exp+idle+150), "lifecycle"}
+					emit("expiry-restart", ops)
+				}
+			}
+		}
+	}
+	emit("plain", []string{"spawn 0 0", "ping", "crash 0", "ping", "term 0", "lifecycle"})
+	emit("plain", []string{"spawn 0 0", "repeat 0 10 10 -1", "wait 50", "crash 30", "wait 50", "term 20", "wait 50", "lifecycle"})
+	n := 40
+	if tier == "thorough" {
+		n = 400
+	}
+	for i := 0; i < n; i++ {
+		exp, idle := rng.Pick(1, 2, 2, 1)*80, rng.Pick(3, 1, 1)*120
+		ops := []string{fmt.Sprintf("spawn %d %d", idle, exp)}
+		for j, k := 0, 2+rng.Intn(5); j < k; j++ {
+			switch rng.Intn(6) {
+			case 0:
+				ops = append(ops, fmt.Sprintf("after %d %d", rng.Intn(3), 10+rng.Intn(150)))
+			case 1:
+				ops = append(ops, fmt.Sprintf("wait %d", 20+rng.Intn(200)))
+			case 2, 3:
+				ops = append(ops, fmt.Sprintf("crash %d", rng.Pick(2, 1, 1, 1)*90))
+			case 4:
+				ops = append(ops, "ping")
+			case 5:
+				ops = append(ops, fmt.Sprintf("busy %d", 20+rng.Intn(150)))
+			}
+		}
+		if rng.Intn(3) == 0 {
+			ops = append(ops, fmt.Sprintf("term %d", rng.Intn(2)*40))
+		}
+		ops = append(ops, fmt.Sprintf("wait %d", exp+idle+150), "lifecycle")
+		emit("random", ops)
+	}
+}
+
 func init() {
 	proto.Register(&proto.Suite{Name: "actor-timers", Gen: actorGen, New: func() proto.Runner { return &actorSuiteRunner{} }})
+	proto.Register(&proto.Suite{Name: "lifecycle-timers", Gen: lifeGen, New: func() proto.Runner { return &actorSuiteRunner{} }})
 }
 
 // debugDump prints all goroutine stacks to stderr when C08_DEBUG is set (diagnosis of hangs only).
